@@ -866,7 +866,7 @@ fn hostile_one(c: &mut Ctx, fam: &str, idx: u64, text: &[u8], kind: &str) {
 }
 
 pub fn run(c: &mut Ctx) {
-    c.families(3);
+    c.families(4);
     if let Some(r) = c.replay.clone() {
         if let Some(h) = r.get("extra").and_then(|e| e.get("input_hex")).and_then(|h| h.as_str()) {
             let t = unhex(h);
@@ -884,6 +884,10 @@ pub fn run(c: &mut Ctx) {
         let mut rng = c.case_rng(fam, idx);
         metamorphic(c, fam, idx, &mut rng);
     }
+    // names at the 63-octet label limit and the 255-octet name limit, spelled with and without escapes (the reader has a
+    // separate copying path for tokens with escapes): accepted exactly when valid, and then the octets of the name
+    // (the family C03 runs on the reader as a name constructor)
+    crate::p03::scanner_names(c);
     let fam = "raw-octet";
     let total = c.total(40_000, 2_000_000);
     for idx in c.cases(fam, total) {
